@@ -46,10 +46,10 @@ def plan(tier):
                 v = [n]
                 for j, k in enumerate(ks): v += [k, (j + var) % 3 if k != 0 else (j * (var + 1)) % 3, (j + 2 * var) % 4]
                 sv.append(v)
-    pv = [v for v in hist(8) if tier != 'quick' or (sum(v) % 4 == 1)]
+    pv = [v for v in hist(8) if tier != 'quick' or (sum(v) % 4 == 1) or v[1:3] == [0, 0]]      # quick: a quarter of the histories + all that start with two publishes
     def unit(name, part, entry, vectors, space, conc):
         return dict(engine='e1', name=name, tu='C03.cpp', defines=['C03_PART=%d' % part, 'VF_DISCIPLINE'], entry=entry, unwind=12, vectors=vectors, concrete=conc,
-                    space=space + (' -- quick tier: disc_lqueue decides a third and disc_pub a quarter of these histories (selected by the sum of their operation codes), the thorough tier all' if tier == 'quick' and part in (2, 4) else ''),
+                    space=space + (' -- quick tier: disc_lqueue decides a third and disc_pub a quarter of these histories (selected by the sum of their operation codes) plus all that start with two publishes, the thorough tier all' if tier == 'quick' and part in (2, 4) else ''),
                     data='pushed / published values symbolic', bounds='histories of %d operations' % L,
                     outside='thread_pool (its std::thread / condition_variable use is modelled in C11); accesses made by user callbacks',
                     cbmc_extra=('--max-field-sensitivity-array-size', '1024') if part == 4 else ())
